@@ -5,7 +5,8 @@
 // size x server key size over the sizes each policy allows (chanpair.KeySizes;
 // fixtures "a" = client, "b" = server) x user token {anonymous, username}.
 // quick: per policy one rapid-drawn (client, server) key-size pair for all modes
-// and tokens plus the largest/largest corner; thorough: the full product.
+// and tokens plus the largest/largest, smallest/largest and largest/smallest
+// corners; thorough: the full product.
 // The value written in every case is rapid-generated (scalar types of a
 // variable node, byte strings of all lengths up to 4 KiB so that every padding
 // alignment of the encrypted chunks occurs).
@@ -47,7 +48,7 @@ func TestMain(m *testing.M) { ev.Main(m) }
 
 const prefix = "http://opcfoundation.org/UA/SecurityPolicy#"
 
-var rec = ev.For("C37", "enumerated configurations (policy, mode) x client key size x server key size (sizes each policy allows) x user token {anonymous, username}, each run as GetEndpoints -> SelectEndpoint -> SecurityFromEndpoint/PrivateKey/Certificate[/AuthUsername] -> Connect -> Write(rapid-generated value) -> Read -> Close against a real server whose certificate has the server key size and which enables every pair that key size supports; quick: one drawn key-size pair per policy plus the largest/largest corner, thorough: the full product; non-trivial = cryptography is involved (policy != None, or a username token whose password is encrypted); distinct by hash of (configuration, value)")
+var rec = ev.For("C37", "enumerated configurations (policy, mode) x client key size x server key size (sizes each policy allows) x user token {anonymous, username}, each run as GetEndpoints -> SelectEndpoint -> SecurityFromEndpoint/PrivateKey/Certificate[/AuthUsername] -> Connect -> Write(rapid-generated value) -> Read -> Close against a real server whose certificate has the server key size and which enables every pair that key size supports; quick: one drawn key-size pair per policy plus the largest/largest, smallest/largest and largest/smallest corners, thorough: the full product; non-trivial = cryptography is involved (policy != None, or a username token whose password is encrypted); distinct by hash of (configuration, value)")
 
 // ---------------------------------------------------------------------------
 // values
@@ -98,8 +99,9 @@ func (v valueT) native() any {
 // initial is the value the variable of this kind is created with.
 func initial(kind string) any { return valueT{Kind: kind, Str: "init", Bytes: []byte{0}}.native() }
 
-func genValue(t *rapid.T) valueT {
-	v := valueT{Kind: rapid.SampledFrom(kinds).Draw(t, "kind")}
+// genValue draws a value of the given kind.
+func genValue(t *rapid.T, kind string) valueT {
+	v := valueT{Kind: kind}
 	switch v.Kind {
 	case "bool":
 		v.Bits = uint64(rapid.IntRange(0, 1).Draw(t, "bool"))
@@ -212,7 +214,8 @@ func fullProduct() []caseT {
 }
 
 // quickPlan: per policy one drawn key-size pair for all modes and tokens, plus
-// the largest/largest corner (SignAndEncrypt+username and Sign+anonymous).
+// the largest/largest corner (SignAndEncrypt+username and Sign+anonymous) and the
+// smallest/largest and largest/smallest corners.
 func quickPlan(t *rapid.T) []caseT {
 	var out []caseT
 	seen := map[string]bool{}
@@ -232,9 +235,12 @@ func quickPlan(t *rapid.T) []caseT {
 			}
 		}
 		if p != "None" {
-			mx := sz[len(sz)-1]
+			mn, mx := sz[0], sz[len(sz)-1]
 			add(caseT{Policy: p, Mode: 3, ClientBits: mx, ServerBits: mx, Token: "username"})
 			add(caseT{Policy: p, Mode: 2, ClientBits: mx, ServerBits: mx, Token: "anonymous"})
+			// the two most unequal pairs: whatever confuses the local with the remote key size shows here
+			add(caseT{Policy: p, Mode: 3, ClientBits: mn, ServerBits: mx, Token: "anonymous"})
+			add(caseT{Policy: p, Mode: 2, ClientBits: mx, ServerBits: mn, Token: "username"})
 		}
 	}
 	return out
@@ -477,11 +483,15 @@ func TestInterop(t *testing.T) {
 		}
 		// group by server so that each server is built once
 		sort.SliceStable(plan, func(i, j int) bool { return plan[i].ServerBits < plan[j].ServerBits })
+		// the kinds rotate from a drawn offset, so a sweep covers every scalar type
+		kindOffset := rapid.IntRange(0, len(kinds)-1).Draw(t, "kindoffset")
+		k := 0
 		for _, c := range plan {
 			if !mine(c) {
 				continue
 			}
-			c.Value = genValue(t)
+			c.Value = genValue(t, kinds[(kindOffset+k)%len(kinds)])
+			k++
 			if c.Token == "username" {
 				c.User = rapid.StringMatching(`[a-z][a-z0-9_.]{0,11}`).Draw(t, "user")
 				c.Pass = rapid.StringMatching(`[ -~]{1,40}`).Draw(t, "pass")
